@@ -8,6 +8,7 @@ package funcs
 import (
 	"fmt"
 	"math"
+	"reflect"
 	"strings"
 	"time"
 
@@ -249,4 +250,59 @@ func reIndexFuncArgs(fnStmt *ast.CallExpr, keyList []string, reqParm int) error 
 
 	fnStmt.Param = ret
 	return nil
+}
+
+// selfContaining reports whether a list or map contains itself, directly or
+// through nested lists and maps; such a value cannot be formatted.
+func selfContaining(v any) bool {
+	type ref struct {
+		ptr uintptr
+		len int
+	}
+	onPath := map[ref]bool{}
+	done := map[ref]bool{}
+
+	var walk func(v any) bool
+	walk = func(v any) bool {
+		var k ref
+		switch x := v.(type) {
+		case []any:
+			if len(x) == 0 {
+				return false
+			}
+			k = ref{reflect.ValueOf(x).Pointer(), len(x)}
+		case map[string]any:
+			if len(x) == 0 {
+				return false
+			}
+			k = ref{reflect.ValueOf(x).Pointer(), -1}
+		default:
+			return false
+		}
+		if onPath[k] {
+			return true
+		}
+		if done[k] {
+			return false
+		}
+		onPath[k] = true
+		switch x := v.(type) {
+		case []any:
+			for _, e := range x {
+				if walk(e) {
+					return true
+				}
+			}
+		case map[string]any:
+			for _, e := range x {
+				if walk(e) {
+					return true
+				}
+			}
+		}
+		delete(onPath, k)
+		done[k] = true
+		return false
+	}
+	return walk(v)
 }
